@@ -325,6 +325,33 @@ def case_save(rep):
                             "save(): reaction forces in the file differ from the given forces", unit="save:forces", config=("save-forces", ext, fam))
                 if not np.array_equal(back.points[:, : mesh.dim], mesh.points) or not np.array_equal(back.cells[0].data, mesh.cells) or back.cells[0].type != mesh.cell_type:
                     run.fail("files.save", "format=%s clause=mesh" % ext, "save(): mesh in the file differs")
+                # user data next to it: the caller's dictionary is only read (a second save with the same dictionary and without
+                # forces writes no forces), tensor-valued point data as in the tutorial (topoints of a stress) keep the file readable
+                pd_user = {"Temperature": rng.uniform(0, 1, mesh.npoints)}
+                if u.shape[1] == 3:
+                    pd_user["ShiftedTensor"] = rng.standard_normal((mesh.npoints, 3, 3))
+                keys0 = sorted(pd_user)
+                fn3, fn4 = os.path.join(d, "user_a." + ext), os.path.join(d, "user_b." + ext)
+                fem.tools.save(field.region, res.x, forces=forces, point_data=pd_user, filename=fn3)
+                fem.tools.save(field.region, res.x, point_data=pd_user, filename=fn4)
+                if sorted(pd_user) != keys0:
+                    run.fail("files.save", "format=%s clause=user-dictionary-untouched" % ext, "save(point_data=d) adds its own arrays to the caller's dictionary: %s" % sorted(set(pd_user) - set(keys0)))
+                else:
+                    run.ok("files.save", unit="save:user-data")
+                try:
+                    b3, b4 = meshio.read(fn3), meshio.read(fn4)
+                except (Exception, SystemExit) as exc:
+                    run.fail("files.save", "format=%s clause=file-with-user-data-readable" % ext,
+                             "save(point_data=<tensor-valued array>): the written file cannot be read back (%s: %s)" % (type(exc).__name__, str(exc)[:100]))
+                else:
+                    run.compare("files.save", "format=%s clause=displacements[with user data]" % ext, maxabs(b3.point_data["Displacements"] - u), 0.0,
+                                "save(point_data=...): displacements differ", unit="save:user-data")
+                    run.compare("files.save", "format=%s clause=user-point-data" % ext, maxabs(np.asarray(b3.point_data["Temperature"]).ravel() - pd_user["Temperature"]), 0.0,
+                                "save(point_data=...): the caller's point data are not written unchanged", unit="save:user-data")
+                    if "Reaction Force" in b4.point_data:
+                        run.fail("files.save", "format=%s clause=only-the-given-data" % ext, "save() without forces writes the reaction forces of an earlier call (taken from the caller's dictionary)")
+                    else:
+                        run.ok("files.save", unit="save:user-data")
                 # the documented call with the stress handed over as well: the file stays readable, displacements and forces are
                 # unchanged and the stress point data are P F^T / det F shifted to the points
                 fn2 = os.path.join(d, "result_stress." + ext)
@@ -380,7 +407,7 @@ def _required():
             req.append("mesh:%s:%s" % (n, ext))
     req += ["mesh:VTK_LAGRANGE_QUADRILATERAL:vtu", "mesh:VTK_LAGRANGE_HEXAHEDRON:vtu", "container:shared-points", "read:merge-shares-points",
             "read:cell-geometry", "job:frame-count", "job:frame-order", "job:displacement", "job:cell-data", "job:custom-data", "job:early-stop",
-            "save:displacements", "save:forces", "save:principal", "save:cauchy", "save:kind:mixed", "save:kind:planestrain", "save:kind:axisymmetric", "job:mesh-cells", "job:no-default-data"]
+            "save:displacements", "save:forces", "save:principal", "save:cauchy", "save:kind:mixed", "save:kind:planestrain", "save:kind:axisymmetric", "job:mesh-cells", "job:no-default-data", "save:user-data"]
     return req
 
 
